@@ -27,6 +27,9 @@ ERRH = "crates/scion-stack/src/stack/scmp_handler/error.rs"
 SOCKET = "crates/scion-stack/src/stack/socket.rs"
 SCMP_VIEW = SCI + "proto/payload/scmp/view.rs"
 SIM = "crates/pocketscion/src/network/local/simulator.rs"
+STACK = "crates/scion-stack/src/stack.rs"
+# codes of the handler types in STACK_SOCKET_HANDLERS (Model/ScmpHandler.lean `handlerOfCode`)
+HANDLER_CODES = {"ScmpErrorHandler": 0, "DefaultEchoHandler": 1}
 
 
 def register(api):
@@ -451,7 +454,57 @@ def register(api):
         loops = re.findall(r"ProtocolNumber::Udp\s*=>\s*\{\s*\}\s*ProtocolNumber::Scmp\s*=>\s*\{.*?for\s+handler\s+in\s+&self\.scmp_handlers.*?continue;\s*\}\s*next_header\s*=>", sock, flags=re.S)
         if len(loops) < 2:
             raise E("socket.rs: the next_header dispatch of recv_from / recv_from_with_path not recognised")
+        # ---- which handlers production sockets carry: every `PathUnawareUdpScionSocket::new(socket, vec![..])` of stack.rs
+        def balanced(src, i):
+            """text between the parenthesis at src[i] and its partner"""
+            depth = 0
+            for j in range(i, len(src)):
+                if src[j] in "([{":
+                    depth += 1
+                elif src[j] in ")]}":
+                    depth -= 1
+                    if depth == 0:
+                        return src[i + 1:j]
+            raise E("unbalanced parentheses")
+        def top_level_split(txt):
+            parts, depth, cur = [], 0, ""
+            for ch in txt:
+                if ch in "([{":
+                    depth += 1
+                elif ch in ")]}":
+                    depth -= 1
+                if ch == "," and depth == 0:
+                    parts.append(cur); cur = ""
+                else:
+                    cur += ch
+            if cur.strip():
+                parts.append(cur)
+            return [x.strip() for x in parts]
+        stack = api.strip_comments(api.read(STACK))
+        wiring = []
+        for m in re.finditer(r"PathUnawareUdpScionSocket::new\(", stack):
+            fns = list(re.finditer(r"pub\s+(?:async\s+)?fn\s+(\w+)\s*\(", stack[:m.start()]))
+            if not fns:
+                raise E("stack.rs: PathUnawareUdpScionSocket::new outside a public fn")
+            args = top_level_split(balanced(stack, m.end() - 1))
+            if len(args) != 2 or not re.fullmatch(r"vec!\[.*\]", args[1], flags=re.S):
+                raise E(f"stack.rs {fns[-1].group(1)}: handler argument of PathUnawareUdpScionSocket::new is not a vec![..] literal: {args[1:]!r}")
+            elems = top_level_split(args[1][5:-1])
+            codes = []
+            for e in elems:
+                mm = re.fullmatch(r"Box::new\(\s*(\w+)::new\(.*\)\s*,?\s*\)", e, flags=re.S)
+                if not mm or mm.group(1) not in HANDLER_CODES:
+                    raise E(f"stack.rs {fns[-1].group(1)}: SCMP handler {e!r} is not one of {sorted(HANDLER_CODES)}")
+                codes.append(HANDLER_CODES[mm.group(1)])
+            wiring.append((fns[-1].group(1), codes))
+        if not wiring or len({w[0] for w in wiring}) != len(wiring):
+            raise E(f"stack.rs: construction sites of PathUnawareUdpScionSocket not recognised: {wiring}")
+        # no other production construction site: in socket.rs they all live in the test module
+        first_test = sock.find("#[cfg(test)]")
+        if any(first_test < 0 or m.start() < first_test for m in re.finditer(r"PathUnawareUdpScionSocket::new\(", sock)):
+            raise E("socket.rs: PathUnawareUdpScionSocket::new outside the test module")
         vals = {
+            "STACK_SOCKET_HANDLERS": [[f, c] for f, c in wiring],
             "VERIFY_CHECKSUM_ON_RECEIVE": 1 if v_echo else 0, "NO_REPLY_TO_UNKNOWN_ERROR": 1 if no_reply_unknown else 0,
             "SCMP_ERROR_MAX_PACKET_SIZE": maxsz, "MAX_HEADER_SIZE": max_hdr, "JUMBO_BUF_SIZE": bufsz,
             "PROTO_SCMP": proto["Scmp"], "PROTO_UDP": proto["Udp"], "UNKNOWN_HEADER_SIZE": unk_hdr,
@@ -478,5 +531,8 @@ def register(api):
             body += rng(k, echo_req[k]); vals[k] = list(echo_req[k])
         for k in ["RESERVED_RNG", "POINTER_RNG"]:
             body += rng("PP_" + k, pp[k]); vals["PP_" + k] = list(pp[k])
+        body += "/-- (public fn of ScionStack, handler types of the `vec![..]` it passes to `PathUnawareUdpScionSocket::new`):\n"
+        body += "    0 = ScmpErrorHandler, 1 = DefaultEchoHandler; every construction site of stack.rs -/\n"
+        body += "def STACK_SOCKET_HANDLERS : List (String × List Nat) := [" + ", ".join(f'("{f}", {c})' for f, c in wiring) + "]\n"
         body += "end ScionVerif.Generated.Scmp\n"
-        return api.write_lean("Scmp", body, [SCMP_LAYOUT, SCMP_TYPES, SCMP_MODEL, SCMP_VIEW, PAYLOAD, CHECKSUM, HDR_LAYOUT, GATEWAY, ECHO, ERRH, SOCKET, SIM]), vals
+        return api.write_lean("Scmp", body, [SCMP_LAYOUT, SCMP_TYPES, SCMP_MODEL, SCMP_VIEW, PAYLOAD, CHECKSUM, HDR_LAYOUT, GATEWAY, ECHO, ERRH, SOCKET, SIM, STACK]), vals
